@@ -200,10 +200,36 @@ def run(ctx):
         for (i, s, pe, rve) in v.field_writes():
             if show(pe) == 'self.desired_stop_options' and show(rve) == 'Option::None{}':
                 clears.append((short(v.path), [g for g in guard_strs(v, i) if 'operation is' in g or 'new_state ==' in g]))
-    fnames = sorted(c[0] for c in clears)
+    fnames = sorted(set(c[0] for c in clears))
     ctx.ob(fnames == ['MqttClientImpl::handle_incoming_operation', 'MqttClientImpl::reset_state_for_new_connection', 'MqttClientImpl::transition_to_state'], 'stop options cleared in %s' % fnames, 'stopopts|clears')
+    arms_ = set()
     for fn_, gs in clears:
         if fn_.endswith('transition_to_state'):
             ctx.ob(any('new_state == ClientImplState::Stopped' in g and not g.startswith('!') for g in gs), 'transition_to_state clears the stop options when entering Stopped', 'stopopts|on-stopped')
         if fn_.endswith('handle_incoming_operation'):
-            ctx.ob(any(g == 'operation is Start' for g in gs), 'Start clears the stop options', 'stopopts|on-start')
+            arms_.update(g.split(' is ')[1] for g in gs if g.startswith('operation is '))
+    ctx.ob(arms_ == {'Start', 'Shutdown'}, 'the stop options are cleared by Start and by Shutdown (whose engine reset fails the DISCONNECT a stop request may be waiting on - defect 14) (%s)' % sorted(arms_), 'stopopts|on-start')
+    # defect 14: the wait for a DISCONNECT to be flushed must not outlive that DISCONNECT
+    rs_ = hio.calls('ProtocolState::reset')
+    so_none = [i for (i, s_, pe, rve) in hio.field_writes() if show(pe) == 'self.desired_stop_options' and show(rve) == 'Option::None{}']
+    okw = bool(rs_)
+    for c_ in rs_:
+        seen_ = hio.reach(list(hio.graph()[0][c_.bb]), avoid=so_none)
+        okw = okw and not any(x in seen_ for x in hio.exits())
+    ctx.ob(okw, 'whenever the client resets the protocol engine (failing every queued operation, a pending user DISCONNECT included) it also drops the stop options that wait for that DISCONNECT', 'stopopts|reset-drops-wait', loc=hio.loc())
+
+    # ---- added after the mutation sweep: what the decision tables assume about last_connack is what dispatch produces
+    dpe = ctx.fn('MqttClientImpl::dispatch_packet_events')
+    lc = [(i, show(rve)) for (i, s_, pe, rve) in dpe.field_writes() if show(pe) == 'self.last_connack']
+    ok = len(lc) == 1 and lc[0][1].startswith('Option::Some{') and guarded_any(dpe, lc[0][0], [r' is Connack$'])
+    ces = prims.edge_nodes_matching(dpe, [r' is Connack$'])
+    ok = ok and bool(ces) and all(not (set(x for x in dpe.reach([e], avoid=[lc[0][0]])) & set(c.bb for c in dpe.calls('MqttClientImpl::emit_connection_success_event'))) for e in ces)
+    ctx.ob(ok, 'every CONNACK event is stored as last_connack (before a success event can be emitted)', 'producer|last-connack', loc=dpe.loc(), rule='R-C12-5')
+    se = dpe.calls('MqttClientImpl::emit_connection_success_event')
+    SUCC = r'^\(.*reason_code == ConnectReasonCode::Success\{\}\)$'
+    ok = len(se) == 1 and guarded_any(dpe, se[0].bb, [SUCC]) and guarded_any(dpe, se[0].bb, [r' is Connack$'])
+    es = prims.edge_nodes_matching(dpe, [SUCC])
+    ok = ok and bool(es) and all(se[0].bb in dpe.reach([e]) for e in es)
+    ctx.ob(ok, 'the connection-success event is emitted exactly for a CONNACK whose reason code is Success', 'producer|success-event', loc=dpe.loc(), rule='R-C12-5')
+    ld = [(i, show(rve)) for (i, s_, pe, rve) in dpe.field_writes() if show(pe) == 'self.last_disconnect']
+    ctx.ob(len(ld) == 1 and ld[0][1].startswith('Option::Some{') and guarded_any(dpe, ld[0][0], [r' is Disconnect$']), 'a server DISCONNECT event is stored for the disconnection event', 'producer|last-disconnect', loc=dpe.loc(), rule='R-C12-5')
